@@ -409,7 +409,7 @@ fn apply_timer_outputs(slots: &mut [Slots; 2], now: u64, outs: &[PeerFsmOutput],
     }
 }
 
-fn run_case_c08(line: &str) -> String {
+pub(crate) fn run_case_c08(line: &str) -> String {
     let Some(t) = Term::parse(line) else {
         return "(bad-case)".into();
     };
@@ -422,6 +422,10 @@ fn run_case_c08(line: &str) -> String {
     let Some(evs) = evs.tagged("evs") else {
         return "(bad-case)".into();
     };
+    // only configurations the daemon accepts (`TimedSpec.cfgValid`, config/src/validate.rs)
+    if !(cfg.hold == 0 || (3..=65535).contains(&cfg.hold)) {
+        return "(bad-case)".into();
+    }
     let mut fsm = new_fsm(&cfg);
     let mut slots = [Slots::default(); 2];
     let mut now: u64 = 0;
@@ -436,6 +440,12 @@ fn run_case_c08(line: &str) -> String {
         };
         match parse_ev(ev) {
             Ev::Bad => return "(bad-case)".into(),
+            // C08 histories are the ones a driver can produce (`TimedSpec.wfHist`): the two timer
+            // inputs come from the clock (`wait`), never as events.  (A parsed OPEN with hold time
+            // 1 or 2 is already `Ev::Bad`: `HoldTime::new` refuses it.)
+            Ev::Input(Input::HoldTimerExpired) | Ev::Input(Input::KeepaliveTimerExpired) => {
+                return "(bad-case)".into();
+            }
             Ev::Wait(d) => {
                 // advance the virtual clock, firing due timers in deadline order
                 // (hold before keepalive on a tie, as select_biased! orders them;
